@@ -1,4 +1,4 @@
-import ElvisVerif.Lemmas.TcpFullRound
+import ElvisVerif.Lemmas.TcpFullClean
 import ElvisVerif.Props.C01Converge
 /-!
 # C01 — convergence from (almost) any reachable state of the closed system nobody closes
@@ -169,6 +169,172 @@ example : ∃ sys0 s : Sys, ∃ rs, ∃ ta tb : Tcb,
           simp only [Bool.and_eq_true, beq_iff_eq] at k2
           exact ⟨sys0, s, rs, ta, tb, e0, plainRunB_sound _ _ _ e1, ⟨r1, r2⟩, hta, htb, x1, x2, x3, x4, x5, x6,
             x7, x8, x9, x10, x13, by rw [x11]; decide, by rw [x12]; decide, s', e2, k2.1, k2.2⟩
+        · simp at k2
+      · simp at k1
+    · simp at key
+  · simp at key
+
+/-! ## from any reachable state with both endpoints ESTABLISHED -/
+
+/-- **C01 convergence from ANY reachable state in which both endpoints are ESTABLISHED** (`_partial`: everything but
+    the handshake after loss, see `C01HandshakeAfterLossStatement`).
+
+    Starting state `s`: any reachable state (file header: any interleaving of writes, reads, ticks, emits and
+    deliveries of any history element to its addressee — loss, duplication, reordering, delay —; MTUs ≥ 100; H31) in
+    which both TCBs are ESTABLISHED with their SYN acknowledged (`SND.UNA ≠ ISS`).  NOTHING else is assumed: receive
+    buffers may be full, reorder heaps may hold anything that was parked, one-shot and retransmission queues
+    anything, any amount of text may be unsent, the timers are anywhere.
+
+    With `n = ⌈max (unsent_A, unsent_B) / 65535⌉` (given as `unsent ≤ 65535 · n`) TWO fair rounds — a clean-up round of
+    one phase, `fairRound 1`, then `fairRound (2n + 2)`: `2n + 5` … at most `2⌈unsent / 65535⌉ + 3` exchange phases
+    and four timer expiries in all — end in a `Done` state: `delivered = submitted` in both directions, all queues,
+    heaps, buffers and unsent texts empty, `segments()` returns `[]` on both sides, and every further fair round
+    ends `Done` again with the history unchanged.
+
+    The clean-up round (`Full.cleanup_round`) is total by `Wf` (`segment_arrives` never panics on a well-formed TCB),
+    keeps both sides ESTABLISHED (no RFC 9293 edge leaves ESTABLISHED without RST / FIN) and ends with both
+    applications having read: the state is rough, and `c01_converges_rough_partial` applies. -/
+theorem c01_converges_established_partial (ia ib : Seq) (ma mb : U16) (simultaneous : Bool) (sys0 s : Sys)
+    (rs : List Res) (hma : 100 ≤ ma.toNat) (hmb : 100 ≤ mb.toNat)
+    (h0 : Sys.run {} [.open .A ia ma, if simultaneous then .open .B ib mb else .listen .B ib mb] = .ok (sys0, rs))
+    (hrun : PlainRun sys0 s) (h31 : RoomH s) (ta tb : Tcb) (hta : s.a.tcb = some ta) (htb : s.b.tcb = some tb)
+    (ea : ta.state = .Established) (eb : tb.state = .Established)
+    (ua : ta.snd.una ≠ ta.snd.iss) (ub : tb.snd.una ≠ tb.snd.iss)
+    (n : Nat) (wa : ta.outgoing.text.length ≤ 65535 * n) (wb : tb.outgoing.text.length ≤ 65535 * n) :
+    ∃ s1 s' ta' tb', fairRound 1 s = .ok s1 ∧ fairRound (2 * n + 2) s1 = .ok s' ∧
+      ([1, 2 * n + 2].foldlM (fun st k => fairRound k st) s = .ok s') ∧ PlainRun s s' ∧ Done s' ta' tb' ∧
+      s'.b.delivered = s'.a.submitted ∧ s'.a.delivered = s'.b.submitted ∧
+      s.a.submitted <+: s'.a.submitted ∧ s.b.submitted <+: s'.b.submitted ∧
+      (∀ x, ∃ s2, s'.step (.emit x) = .ok (s2, .emitted s'.historyLen []) ∧ s2.history = s'.history) ∧
+      (∀ k, ∃ s'' ta'' tb'', fairRound k s' = .ok s'' ∧ Done s'' ta'' tb'' ∧ s''.historyLen = s'.historyLen ∧
+        s''.b.delivered = s''.a.submitted ∧ s''.a.delivered = s''.b.submitted) := by
+  have h50 : SPACE_FOR_HEADERS = 50 := rfl
+  have hg := good_of_reach ia ib ma mb simultaneous sys0 s rs (by omega) (by omega) h0 hrun h31
+  have hf := finv_of_reach ia ib ma mb simultaneous sys0 s rs (by omega) (by omega) h0 hrun h31
+  have hm : ∀ x, SPACE_FOR_HEADERS < (mtuOf ma mb x).toNat := by
+    intro x
+    cases x
+    · show 50 < ma.toNat; omega
+    · show 50 < mb.toNat; omega
+  obtain ⟨s1, ta1, tb1, hf1, hr1, hg1, hc1, la, lb⟩ := cleanup_round s hg hf hm _ _
+    ⟨ta, hta, ea, ua, Nat.le_refl _⟩ ⟨tb, htb, eb, ub, Nat.le_refl _⟩
+  have hfi1 : FInv (issOf ia ib) (mtuOf ma mb) s1 := finv_run hg.conv hg.ext hf hr1 hg1.room
+  obtain ⟨s', ta', tb', hfr, hr, hg', hd⟩ := fairRound_rough n s1 ta1 tb1 hg1 hfi1 hc1 (by omega) (by omega)
+  obtain ⟨d1, d2⟩ := done_stream hg' ta' tb' hd
+  have hrr := hr1.trans hr
+  refine ⟨s1, s', ta', tb', hf1, hfr, ?_, hrr, hd, d1, d2, hrr.sub .A, hrr.sub .B,
+    fun x => done_silent hg' ta' tb' hd x, fun k => ?_⟩
+  · simp only [List.foldlM, hf1, hfr, bind, Except.bind, pure, Except.pure]
+  · obtain ⟨s'', ta'', tb'', hf', _, hg'', hd', hl⟩ := done_fairRound k s' ta' tb' hg' hd
+    obtain ⟨e1, e2⟩ := done_stream hg'' ta'' tb'' hd'
+    exact ⟨s'', ta'', tb'', hf', hd', hl, e1, e2⟩
+
+/-- the same with the bound computed from the state: `n = ⌈max (unsent_A, unsent_B) / 65535⌉` -/
+theorem c01_converges_established_bound_partial (ia ib : Seq) (ma mb : U16) (simultaneous : Bool) (sys0 s : Sys)
+    (rs : List Res) (hma : 100 ≤ ma.toNat) (hmb : 100 ≤ mb.toNat)
+    (h0 : Sys.run {} [.open .A ia ma, if simultaneous then .open .B ib mb else .listen .B ib mb] = .ok (sys0, rs))
+    (hrun : PlainRun sys0 s) (h31 : RoomH s) (ta tb : Tcb) (hta : s.a.tcb = some ta) (htb : s.b.tcb = some tb)
+    (ea : ta.state = .Established) (eb : tb.state = .Established)
+    (ua : ta.snd.una ≠ ta.snd.iss) (ub : tb.snd.una ≠ tb.snd.iss) :
+    ∃ s' ta' tb',
+      ([1, 2 * ((max ta.outgoing.text.length tb.outgoing.text.length + 65534) / 65535) + 2].foldlM
+        (fun st k => fairRound k st) s = .ok s') ∧ Done s' ta' tb' ∧
+      s'.b.delivered = s'.a.submitted ∧ s'.a.delivered = s'.b.submitted := by
+  obtain ⟨_, s', ta', tb', _, _, hfold, _, hd, d1, d2, _⟩ := c01_converges_established_partial ia ib ma mb simultaneous
+    sys0 s rs hma hmb h0 hrun h31 ta tb hta htb ea eb ua ub
+    ((max ta.outgoing.text.length tb.outgoing.text.length + 65534) / 65535) (by omega) (by omega)
+  exact ⟨s', ta', tb', hfold, hd, d1, d2⟩
+
+/-- **(f), NOT proved: the handshake after loss.**  From every reachable state some fair rounds (SYN / SYN-ACK
+    retransmission: every tick of a fair round flags the SYN on the retransmission queue, the next phase re-sends
+    and delivers it) lead — by plain ops, within H31 — to a state in which both endpoints are ESTABLISHED with
+    their SYN acknowledged.  The loss-free handshake is `handshake_steady` (`Props/C01FromOpen.lean`).  Missing: the
+    case analysis over the reachable pre-ESTABLISHED pairs (SYN-SENT / no TCB + LISTEN, SYN-SENT / SYN-RECEIVED,
+    ESTABLISHED / SYN-RECEIVED, SYN-SENT / SYN-SENT, SYN-RECEIVED / SYN-RECEIVED, …) with arbitrary reorder heaps —
+    in SYN-SENT the heap gate is off and `segment_arrives` processes everything parked; and the invariant
+    "ESTABLISHED ⇒ SND.UNA ≠ ISS" (true: both ways into ESTABLISHED move or test SND.UNA; `Early` has only the converse
+    for SYN-RECEIVED), which would remove the hypotheses `ua`, `ub` of `c01_converges_established_partial`. -/
+def C01HandshakeAfterLossStatement : Prop :=
+  ∀ (ia ib : Seq) (ma mb : U16) (simultaneous : Bool) (sys0 s : Sys) (rs : List Res),
+    100 ≤ ma.toNat → 100 ≤ mb.toNat →
+    Sys.run {} [.open .A ia ma, if simultaneous then .open .B ib mb else .listen .B ib mb] = .ok (sys0, rs) →
+    PlainRun sys0 s → RoomH s →
+    ∃ (rounds : List Nat) (s1 : Sys) (ta tb : Tcb),
+      (rounds.foldlM (fun st k => fairRound k st) s = .ok s1) ∧ PlainRun s s1 ∧ RoomH s1 ∧
+      s1.a.tcb = some ta ∧ s1.b.tcb = some tb ∧ ta.state = .Established ∧ tb.state = .Established ∧
+      ta.snd.una ≠ ta.snd.iss ∧ tb.snd.una ≠ tb.snd.iss
+
+theorem foldlM_fairRound_append (r1 r2 : List Nat) (s s1 : Sys)
+    (h1 : r1.foldlM (fun st k => fairRound k st) s = .ok s1) :
+    (r1 ++ r2).foldlM (fun st k => fairRound k st) s = r2.foldlM (fun st k => fairRound k st) s1 := by
+  rw [List.foldlM_append, h1]
+  rfl
+
+/-- **the full statement, modulo (f)**: `C01ConvergesFullStatement` (`Props/C01Converge.lean`: from ANY reachable state
+    some fair rounds end `Done`) follows from the handshake after loss alone -/
+theorem c01_converges_full_of_handshake (h : C01HandshakeAfterLossStatement) : C01ConvergesFullStatement := by
+  intro ia ib ma mb simultaneous sys0 s rs hma hmb h0 hrun h31
+  obtain ⟨rounds, s1, ta, tb, hfold, hr1, h31', hta, htb, ea, eb, ua, ub⟩ :=
+    h ia ib ma mb simultaneous sys0 s rs hma hmb h0 hrun h31
+  obtain ⟨s', ta', tb', hf, hd, _⟩ := c01_converges_established_bound_partial ia ib ma mb simultaneous sys0 s1 rs hma hmb
+    h0 (hrun.trans hr1) h31' ta tb hta htb ea eb ua ub
+  exact ⟨rounds ++ [1, 2 * ((max ta.outgoing.text.length tb.outgoing.text.length + 65534) / 65535) + 2], s', ta', tb',
+    by rw [foldlM_fairRound_append _ _ _ _ hfold]; exact hf, hd⟩
+
+/-! ### non-vacuity: receive buffers NOT read, parked segments, lost data, a lost ACK -/
+
+/-- as `roughOps`, but nobody reads: A's receive buffer holds [9, 8] -/
+def dirtyOps : List Op :=
+  [.emit .A, .deliver .B 0, .emit .B, .deliver .A 1, .emit .A, .deliver .B 2,
+   .write .A [1, 2, 3], .emit .A, .write .A [4, 5], .emit .A, .deliver .B 4, .deliver .B 4,
+   .write .B [9, 8], .emit .B, .deliver .A 5, .emit .A, .deliver .A 5, .write .A [6]]
+
+def dirtyCheck : Bool :=
+  match Sys.run {} [.open .A 1000 1500, .listen .B 5000 1500] with
+  | .ok (sys0, _) =>
+    match plainRunB sys0 dirtyOps with
+    | some s =>
+      decide (s.a.submitted.length + 2 < 2147483648) && decide (s.b.submitted.length + 2 < 2147483648) &&
+      (match s.a.tcb, s.b.tcb with
+        | some ta, some tb => ta.state == .Established && tb.state == .Established &&
+            ta.snd.una != ta.snd.iss && tb.snd.una != tb.snd.iss &&
+            ta.incoming.text == [9, 8] && tb.incoming.segments.length == 2 &&
+            ta.outgoing.text == [6] && tb.outgoing.text == [] && s.b.delivered == [] && s.a.delivered == []
+        | _, _ => false) &&
+      (match [1, 4].foldlM (fun st k => fairRound k st) s with
+        | .ok s' => s'.b.delivered == [1, 2, 3, 4, 5, 6] && s'.a.delivered == [9, 8]
+        | .error _ => false)
+    | none => false
+  | .error _ => false
+
+/-- the hypotheses of `c01_converges_established_partial` hold in that reachable state (`n = 1`) — A's receive buffer is
+    not empty, two segments are parked in B's reorder heap —, and the two rounds it promises, evaluated, complete
+    both streams -/
+example : ∃ sys0 s : Sys, ∃ rs, ∃ ta tb : Tcb,
+    Sys.run {} [.open .A 1000 1500, if false then .open .B 5000 1500 else .listen .B 5000 1500] = .ok (sys0, rs) ∧
+    PlainRun sys0 s ∧ RoomH s ∧ s.a.tcb = some ta ∧ s.b.tcb = some tb ∧
+    ta.state = .Established ∧ tb.state = .Established ∧ ta.snd.una ≠ ta.snd.iss ∧ tb.snd.una ≠ tb.snd.iss ∧
+    ta.incoming.text = [9, 8] ∧ tb.incoming.segments.length = 2 ∧ s.b.delivered = [] ∧ s.a.delivered = [] ∧
+    ta.outgoing.text.length ≤ 65535 * 1 ∧ tb.outgoing.text.length ≤ 65535 * 1 ∧
+    ∃ s', [1, 2 * 1 + 2].foldlM (fun st k => fairRound k st) s = .ok s' ∧
+      s'.b.delivered = [1, 2, 3, 4, 5, 6] ∧ s'.a.delivered = [9, 8] := by
+  have key : dirtyCheck = true := by decide
+  unfold dirtyCheck at key
+  split at key
+  · rename_i sys0 rs e0
+    split at key
+    · rename_i s e1
+      simp only [Bool.and_eq_true, decide_eq_true_eq] at key
+      obtain ⟨⟨⟨r1, r2⟩, k1⟩, k2⟩ := key
+      split at k1
+      · rename_i ta tb hta htb
+        simp only [Bool.and_eq_true, beq_iff_eq, bne_iff_ne, ne_eq] at k1
+        obtain ⟨⟨⟨⟨⟨⟨⟨⟨⟨x1, x2⟩, x3⟩, x4⟩, x5⟩, x6⟩, x7⟩, x8⟩, x9⟩, x10⟩ := k1
+        split at k2
+        · rename_i s' e2
+          simp only [Bool.and_eq_true, beq_iff_eq] at k2
+          exact ⟨sys0, s, rs, ta, tb, e0, plainRunB_sound _ _ _ e1, ⟨r1, r2⟩, hta, htb, x1, x2, x3, x4, x5, x6, x9, x10,
+            by rw [x7]; decide, by rw [x8]; decide, s', e2, k2.1, k2.2⟩
         · simp at k2
       · simp at k1
     · simp at key
